@@ -5,7 +5,39 @@ from .p_queue import run_queue_correspondence
 from .p_session import run_session_correspondence
 def both(ctx):
     run_queue_correspondence(ctx)
-    run_session_correspondence(ctx)
+    script, impl = run_session_correspondence(ctx)
+    held_frames_monitor(ctx, script, impl)
+
+def held_frames_monitor(ctx, script, impl):
+    """Implementation side only (session level: one real P2PSession, puppet peers).  The newest frame held of a
+    player (local_connect_status[h].last_frame, printed as st=<disconnected>:<last_frame>,...) bounds what is handed
+    out as Confirmed; if it ever goes DOWN, frames that were handed out as Confirmed real inputs come back as
+    Disconnected defaults on the next re-simulation - confirmed inputs are then not final (seeded C03-f)."""
+    start, prev, n = 0, None, 0
+    for i, (op, r) in enumerate(zip(script, impl)):
+        if op.startswith("new"):
+            start, prev = i, None
+            continue
+        st = [t for t in r.split() if t.startswith("st=")]
+        if not st:
+            continue
+        try:
+            cur = [int(x.split(":")[1]) for x in st[0][3:].split(",")]
+        except (IndexError, ValueError):
+            continue
+        n += 1
+        if prev is not None and len(prev) == len(cur):
+            for h, (a, b) in enumerate(zip(prev, cur)):
+                if b < a:
+                    ctx.hit("held-frame-lowered", "session level: after `%s` the newest frame held of player %d went from %d to %d: frames up to %d, "
+                            "handed out as Confirmed real inputs so far, are re-simulated as Disconnected defaults" % (op, h, a, b, a),
+                            {"level": "session", "script": script[start:i + 1], "result": r[:200]})
+                    prev = None
+                    break
+        if prev is not None or True:
+            prev = cur
+    ctx.cov["monitors"]["held_frames"] = {"scenarios": sum(1 for o in script if o.startswith("new")), "ops": n, "frames": 0, "rollbacks": 0,
+                                          "hits": sum(1 for h in ctx.hits if h["class"] == "held-frame-lowered"), "wall_s": 0.0}
 LABELS = {"C03", "PANIC"}
 def run(ctx):
     generic_run(ctx, LABELS, extra=both, plan=[("c01", lambda: F.fam_c01(ctx.rng, sizes(ctx, 300, 3000), tag="c03")), ("death2", lambda: F.fam_death(ctx.rng, sizes(ctx, 80, 600))), ("disc_live", lambda: F.fam_disc_live(ctx.rng, sizes(ctx, 60, 600)))])
